@@ -69,7 +69,7 @@ def build(seqk, rng):
     if seqk.startswith("xy"):
         seq.declare_channel("mw", "mw_global")
         if seqk == "xy-slm":
-            seq.config_slm_mask(["q1"])
+            seq.config_slm_mask(["q2"])  # an END atom: a masked atom between two driven ones triggers the known TDVP finding (C02), which is not this check's subject
         seq.add(Pulse.ConstantPulse(T, om, de, 0.3), "mw")
         seq.add(Pulse.ConstantPulse(T // 2, om / 2, 0.0, 0.0), "mw")
         return seq
